@@ -103,9 +103,13 @@ fn view(r: &RegistryCore, x: u64) -> View {
     }
 }
 
+// (tier off: 700-900 s and > 25 GB of CBMC memory; it passes when run alone but dies (out of memory)
+// when another check runs beside it, so no verdict is drawn from it.  Two incoming descriptors are
+// covered against the EMPTY registry by c06_register_into_empty, a non-empty registry by the
+// single-descriptor contract.)
 //@ id: c06_register_two_descs_contract
 //@ prop: C06
-//@ tier: thorough
+//@ tier: off
 //@ strength: bounded(registry state of exactly 1 registered collector; incoming collector with 2 descriptors named "a" and ""), complete in ids and dimension hashes (every u64)
 //@ fn: registry::RegistryCore::register
 //@ obligation: register succeeds <=> no descriptor id of the collector is registered AND its ids are pairwise distinct AND every descriptor agrees in dimension hash with the name's recorded one; on Ok exactly the collector, its ids and its (name -> dim) entries are added; on Err the registry is EXACTLY as before on all three components (collectors, descriptor ids, recorded dimensions); AlreadyReg for an equal descriptor
